@@ -4,3 +4,4 @@ import VC2.Gen.Dispatch
 import VC2.Props.C12
 import VC2.Props.C13
 import VC2.Props.C20
+import VC2.Props.C11
